@@ -2,6 +2,10 @@
    suite orders : one rule set, one load path, a list of document orders; for every order the
      implementation's observable behaviour (exception class + phase, order of collection.rules by
      title, emitted queries, the queries the conversion callback saw per rule).
+     The orders of a case form a HISTORY: they are loaded one after the other, in some modes from the very
+     same parsed documents.  In the model loading is a function of the documents alone (pipeline ds), so
+     every run - whatever was loaded before it - is compared with pipeline applied to the permuted
+     documents, and with the first run of the case (same_class).
      bit 1: the model (Model.RefOrder.pipeline with the TextQueryTestBackend rendering) predicts all of it
      bit 2: the specification oracle (Spec.RefOrder), evaluated on the source documents and the
             implementation's output only
